@@ -1,5 +1,6 @@
 import UtilModel.Core.LTSHash
 import UtilModel.Promise.SimCur
+import UtilModel.Promise.Transfer
 open UtilModel
 #print axioms UtilModel.acceptsH_sound
 #print axioms UtilModel.accepted_satisfies
@@ -26,3 +27,4 @@ open UtilModel
 #print axioms Promise.C11cur_obs
 #print axioms Promise.C11ch_obs_false
 #print axioms Promise.slot_mem_candidates
+#print axioms UtilModel.C11_accepted
